@@ -420,7 +420,7 @@ def shuffled_scandir(seed):
 def collect_ids(node, prefix=b""):
     """{path: hash hex} for every node of a from_disk.Directory tree"""
     out = {prefix: node.hash.hex()}
-    if node.object_type == "directory" or getattr(node.object_type, "value", None) == "directory" or hasattr(node, "entries"):
+    if getattr(node.object_type, "value", node.object_type if isinstance(node.object_type, str) else None) == "directory" or hasattr(node, "entries"):
         for name, child in node.items():
             out.update(collect_ids(child, prefix + b"/" + name if prefix else name))
     return out
@@ -694,3 +694,76 @@ def apply_ops_memory(d, ops, t):
             del d[key]
             d[b"/".join(bytes.fromhex(n) for n in op[1][:-1] + [op[2]])] = node
     return cur
+
+
+# ---------------------------------------------------------------- several trees read at the same time (C06, C13)
+# A case with "concurrent": {"threads": k, "rounds": r, "seed": s, "big": [sizes], "mode": "threads" | "reentrant"} reads k
+# trees - the case's small tree plus a few files larger than 64 KiB whose bytes differ per tree, so that reading and hashing
+# release the GIL - either in k threads started together behind a barrier (r rounds: a wrong id is PROBABILISTIC, the replay
+# re-runs the same rounds) or nested in one thread (a scan of tree B started from a callback of the scan of tree A:
+# deterministic).  Each result is compared with the reference ids of its own tree.  The trees are derived from the case's
+# parameters, the case itself stays small.
+def concurrent_trees(c):
+    import copy
+    cc = c["concurrent"]
+    out = []
+    for i in range(cc["threads"]):
+        t = copy.deepcopy(c["tree"])
+        t["c"] = [[n, ch] for n, ch in t["c"] if not bytes.fromhex(n).startswith(b"big")]
+        sub = []
+        for j, size in enumerate(cc["big"]):
+            data = random.Random(cc["seed"] * 1000 + i * 10 + j).randbytes(size)
+            node = {"t": "R", "d": data.hex(), "m": 0o755 if j % 2 else 0o644}
+            (sub if j % 3 == 2 else t["c"]).append([(b"big%d" % j).hex(), node])
+        if sub:
+            t["c"].append([b"bigdir".hex(), {"t": "D", "c": sub}])
+        out.append(t)
+    return out
+
+
+def run_together(fns, timeout=60):
+    """run the functions in as many threads, released together; -> (results, [error strings], hang?)"""
+    import threading
+    from .core import exc_class
+    barrier = threading.Barrier(len(fns))
+    results, errors = [None] * len(fns), []
+
+    def work(i):
+        try:
+            barrier.wait(timeout)
+            results[i] = fns[i]()
+        except Exception as e:      # noqa
+            errors.append("thread %d: %s:%s" % (i, exc_class(e), str(e)[:80]))
+    ths = [threading.Thread(target=work, args=(i,), daemon=True) for i in range(len(fns))]
+    for t in ths:
+        t.start()
+    for t in ths:
+        t.join(timeout)
+    return results, errors, any(t.is_alive() for t in ths)
+
+
+@contextmanager
+def trees_on_disk(trees):
+    """each tree at <tmp>/t<i>/root; -> list of root paths"""
+    tmp = tempfile.mkdtemp(prefix="swhvc").encode()
+    try:
+        roots = []
+        for i, t in enumerate(trees):
+            os.mkdir(os.path.join(tmp, b"t%d" % i))
+            roots.append(os.path.join(tmp, b"t%d" % i, b"root"))
+            materialise(t, roots[-1])
+        yield roots
+    finally:
+        shutil.rmtree(tmp, ignore_errors=True)
+
+
+CONCURRENT_NOTE = ("(trees read at the same time in %d threads, %d rounds: such a failure is PROBABILISTIC - the replay re-runs the same "
+                   "number of rounds and may need to be repeated)")
+REENTRANT_NOTE = "(a scan of another tree started from a callback of this scan, same thread: DETERMINISTIC)"
+
+
+def gen_concurrent(rng, mode=None):
+    mode = mode or ("reentrant" if rng.random() < 0.4 else "threads")
+    return {"threads": 2 if mode == "reentrant" else rng.choice([2, 3, 4]), "rounds": 1 if mode == "reentrant" else rng.choice([3, 4, 5]),
+            "seed": rng.randrange(10**6), "big": [rng.choice([70000, 131072, 300000, 524288]) for _ in range(rng.choice([2, 3, 4]))],
+            "mode": mode, "via": rng.choice(["filter", "progress"])}
